@@ -268,7 +268,7 @@ def main():
     # contracts this check's toy layer uses for routines named in the property's own file list: re-decided here (see common.include_dependency)
     from .common import include_dependency
     if not only or 'dep' in only:
-        include_dependency(chk, tasks, 'C04', '', 'verification computes u2*Q with the variable-time GLV multiply (toy layer: contract)')
+        include_dependency(chk, tasks, 'C04', 'consts mulg split bound table lookup ladder', 'verification computes u2*Q with the variable-time GLV multiply (toy layer: contract)')
         include_dependency(chk, tasks, 'C05', 'table lookup basemult', 'verification computes u1*G with scalarBaseMultVartime (toy layer: contract)')
         include_dependency(chk, tasks, 'C16', 'dsm', 'verification calls DoubleScalarMultBasepointVartime(u1, u2, Q) (toy layer: contract u1*G + u2*Q)')
     chk.run_tasks(tasks)
